@@ -304,6 +304,7 @@ func (t *Task) runWithLocking() {
 	// enter executing state
 	t.executing = true
 	t.lock.Unlock()
+	verifPoint("task.checked", t.module)
 
 	// wait for good timeslot regarding microtasks
 	select {
@@ -355,8 +356,10 @@ func (t *Task) executeWithLocking() {
 
 		// finish for module
 		atomic.AddInt32(t.module.taskCnt, -1)
+		verifPoint("task.dec", t.module)
 		t.module.checkIfStopComplete()
 
+		verifPoint("task.deferred", t.module)
 		t.lock.Lock()
 
 		// reset state
@@ -502,6 +505,7 @@ func taskQueueHandler() {
 
 			// value -> Task
 			t := e.Value.(*Task) //nolint:forcetypeassert // Can only be *Task.
+			verifPoint("queue.popped", t.module)
 			// run
 			t.runWithLocking()
 		}
@@ -531,6 +535,7 @@ func taskScheduleHandler() {
 		case <-notifyTaskScheduler:
 			continue
 		case <-waitUntilNextScheduledTask():
+			verifPoint("sched.fired", nil)
 			scheduleLock.Lock()
 
 			// get first task in schedule
@@ -546,12 +551,14 @@ func taskScheduleHandler() {
 				// already queued and maxDelay reached
 				t.overtime = false
 				scheduleLock.Unlock()
+				verifPoint("sched.decided", t.module)
 
 				t.runWithLocking()
 			} else {
 				// place in front of prioritized queue
 				t.overtime = true
 				scheduleLock.Unlock()
+				verifPoint("sched.decided", t.module)
 
 				t.StartASAP()
 			}
